@@ -324,6 +324,7 @@ pub fn run(args: &Args) {
         let mut tampers: Vec<Tamper> = Vec::new();
         let mut rewriting = 0u64;
         let mut gcs = 0u64;
+        let mut seen_added: std::collections::HashSet<String> = std::collections::HashSet::new();
         for (_, p) in &processed {
             let bytes = std::fs::read(p).unwrap_or_default();
             let Some(lines) = parse_fragment(&bytes) else { continue };
@@ -341,6 +342,12 @@ pub fn run(args: &Args) {
                                 gcs += 1;
                             }
                             for a in &cur_adds {
+                                // the transaction must be where this file comes into being: a file that
+                                // existed before (same contents, same name) or that the transaction also
+                                // removes is not this transaction's output alone
+                                if seen_added.contains(a) || cur_rm_names.contains(a) {
+                                    continue;
+                                }
                                 for how in ["drop-entry", "modify-value", "manufacture-entry"] {
                                     for books in ["name-kept", "stale-books", "consistent-books"] {
                                         tampers.push(Tamper::File { name: a.clone(), how, gc: !cur_d_zero, books, inputs: cur_rm_names.clone() });
@@ -349,6 +356,9 @@ pub fn run(args: &Args) {
                             }
                         }
                         tx += 1;
+                        for a in &cur_adds {
+                            seen_added.insert(a.clone());
+                        }
                         cur_adds.clear();
                         cur_rm_names.clear();
                         cur_rms = 0;
@@ -394,7 +404,12 @@ pub fn run(args: &Args) {
         }
         rng.shuffle(&mut tampers);
         // all file tampers first (they are few), then digits up to the budget
-        tampers.sort_by_key(|t| matches!(t, Tamper::Digit { .. }));
+        tampers.sort_by_key(|t| match t {
+            Tamper::File { .. } => 0,
+            Tamper::Digit { rollup: false, .. } => 1,
+            Tamper::Digit { what, .. } if what == "output" => 2,
+            Tamper::Digit { .. } => 3,
+        });
         for t in tampers.iter().take(budget) {
             if !fresh(&work) {
                 continue;
@@ -541,6 +556,17 @@ pub fn run(args: &Args) {
                             rep.count(&format!("observed.accepted_with_name_kept.{}.{how}", if *gc { "gc" } else { "merge" }), 1);
                         }
                         Verdict::Accepted => {
+                            if std::env::var("VH_KEEP").is_ok() {
+                                eprintln!("ACCEPTED {class}: file {name} -> {new_name}; entry {i} of {}: before {:?}", dump.entries.len(), dump.entries.iter().map(|e| e.show()).collect::<Vec<_>>());
+                                eprintln!("   after {:?}", entries.iter().map(|e| e.show()).collect::<Vec<_>>());
+                                for inp in inputs {
+                                    let p1 = lsmtk::TRASH_ROOT(&work).join(format!("{inp}.sst"));
+                                    let p2 = lsmtk::SST_ROOT(&work).join(format!("{inp}.sst"));
+                                    if let Ok(d) = dump_sst(if p1.is_file() { &p1 } else { &p2 }) {
+                                        eprintln!("   input {}: {:?}", &inp[..8], d.entries.iter().map(|e| e.show()).collect::<Vec<_>>());
+                                    }
+                                }
+                            }
                             rep.violation("c04t", &format!("tamper-accepted:{class}"), json!({"message": format!("LsmVerifier::verify accepts a directory in which an output of a {} transaction was rebuilt with one entry changed ({how}); books: {books}", if *gc { "GC" } else { "merging" }), "detail": detail}));
                         }
                         Verdict::Panicked(p) => rep.violation("c04t", &format!("verifier-panic:{}", panic_site(&p)), json!({"message": p, "detail": detail})),
